@@ -21,6 +21,8 @@ THEOREMS = [
     "Mtv.Session.start_on_any_storage",
     "Mtv.Session.given_storage_is_used",
     "Mtv.Session.resume_on_the_wire",
+    "Mtv.Session.loads_unaffected_by_holders",
+    "Mtv.Session.shared_cache_object_is_mutable",
 ]
 RULE = ("operations on real files in a per-run scratch directory through session.NewFromFile(...).Store/Load and "
         "mtproto.NewMTProto: round trips on six path shapes (absolute, relative, ./name, bare name; missing directory), "
@@ -47,7 +49,13 @@ RULE = ("operations on real files in a per-run scratch directory through session
         "CreateConnection + one request against loopback listeners for the stored and the configured address; the "
         "first frame is opened by an independent envelope reader holding only the stored key: it arrived at the "
         "stored address, is not plain text, auth_key_id = SHA1(key)[12:20], decrypts, carries the stored salt and "
-        "the request); distinct = distinct operation lines; each is "
+        "the request); what callers do with their own objects AFTERWARDS (history items MS / MG / MC / V: the object "
+        "passed to Store - key and hash bytes rewritten in place, wiped, re-sliced, appended within capacity, other "
+        "salt and host -, a session a Load returned, a started client's key through GetAuthKey / key id / salt, the "
+        "client's SaveSession; two loaders and two Stores of equal-length sessions inside one tick of the file's "
+        "clock; forced times and the real clock): every later Load by the same, another and a fresh loader, every "
+        "client started later and everything handed out to somebody else must be as if the caller had done nothing; "
+        "distinct = distinct operation lines; each is "
         "compared with the Lean model and judged by the property's own reading")
 
 
